@@ -42,7 +42,7 @@ KINDS = {
     T_SETTIMEOUT: ["oserror", "valueerror"],
     T_CONNECT: ["refused", "timeout", "unreach", "overflow"],
     T_SENDALL: ["reset", "brokenpipe", "timeout", "timeout_delivered"],
-    T_RECV: ["timeout", "reset", "eof", "eintr1", "eintr3"],
+    T_RECV: ["timeout", "reset", "eof", "eintr1", "eintr3", "eagain"],
     T_CLOSE: ["oserror"],
 }
 REPLY_LINE_VARIANTS = {
@@ -78,6 +78,8 @@ def make_exc(kind):
         return OSError(errno.ENETUNREACH, "Network is unreachable (injected)")
     if kind in ("timeout", "timeout_delivered"):
         return TimeoutError("timed out (injected)")
+    if kind == "eagain":
+        return BlockingIOError(errno.EAGAIN, "Resource temporarily unavailable (injected)")
     if kind == "reset":
         return ConnectionResetError(errno.ECONNRESET, "Connection reset by peer (injected)")
     if kind == "brokenpipe":
@@ -510,6 +512,16 @@ class FakeSocket:
             raise make_exc(k)
         if k == "timeout":
             raise make_exc("timeout")       # server stalls; pending bytes (if any) arrive later
+        if k == "eagain" or getattr(self, "_eagain_reads", 0):
+            # a receive time-out surfacing as EAGAIN: the peer is silent and stays silent, every further read says so again
+            self.rx.clear()
+            self.stall_after = True
+            self._eagain_reads = getattr(self, "_eagain_reads", 0) + 1
+            if self._eagain_reads > 60:
+                net.alarm("BLOCKED_RECV", "call %r keeps re-reading socket %d after %d EAGAIN results: it would wait for ever"
+                          % (net.ctx.call, self.sid, self._eagain_reads))
+                raise TimeoutError("timed out (reader retries EAGAIN for ever)")
+            raise make_exc("eagain")
         if k == "reset":
             self.rx.clear()
             self.peer_closed = True
